@@ -57,6 +57,15 @@ def gen_base(rs: Stream) -> Dict[str, Any]:
         if rs.chance(0.2):
             b["projects"].append({"side": rs.pick(list(hexref.SIDES)), "label": "terrain", "edges": rs.chance(0.5), "points": rs.chance(0.5)})
         blocks.append(b)
+    # interfaces: two blocks that share a face sometimes carry a patch on either side of it, so that a
+    # merged pair (ifa, ifb) really duplicates vertices there
+    for i in range(len(blocks)):
+        for j in range(i + 1, len(blocks)):
+            common = set(blocks[i]["corners"]) & set(blocks[j]["corners"])
+            if len(common) == 4 and rs.chance(0.4):
+                for b, nm in ((blocks[i], "ifa"), (blocks[j], "ifb")):
+                    side = [sd for sd in hexref.SIDES if {b["corners"][c] for c in hexref.SIDE_CORNERS[sd]} == common][0]
+                    b["patches"] = [p for p in b["patches"] if p["side"] != side] + [{"side": side, "name": nm}]
     # chops: every edge family gets at least one chopped member; the others rely on propagation
     asm = models.Assembly([models.RefBlock(b["name"], b["corners"]) for b in blocks])
     sparse = rs.chance(0.4)
@@ -508,7 +517,7 @@ def gen_history(seed: int, faults: str) -> Dict[str, Any]:
         elif kind == "default_patch":
             do({"op": "default_patch", "name": rs.pick(["defaultFaces", "rest"]), "kind": rs.pick(KINDS)})
         elif kind == "merge":
-            a, b = rs.pick(NAMES), rs.pick(NAMES)
+            a, b = (("ifa", "ifb") if rs.chance(0.5) else (rs.pick(NAMES), rs.pick(NAMES)))
             if a == b or [a, b] in m.merges:
                 continue
             do({"op": "merge", "master": a, "slave": b})
